@@ -366,6 +366,9 @@ func listWorkload(c *Ctx, n int, withMutants bool, f func(entry, input string)) 
 
 func RunC12(c *Ctx) {
 	n := 0
+	if c.Shard == 0 {
+		c12Sequences(c)
+	}
 	one := func(s string) {
 		CheckC12(c, s)
 		n++
